@@ -175,7 +175,7 @@ def run(ctx, rep):
             coeff[acc[0]] = mm["?k"]
         ok = ok and set(coeff) == {"r", "g", "b"} and sum(coeff.values()) == m["?div"] and m["?round"] * 2 == m["?div"] and coeff["g"] > coeff["r"] > coeff["b"]
     rep.check(ok, "R13.3", "luma", "luma must be (kr*r + kg*g + kb*b + div/2) / div with kr+kg+kb = div (gray in -> same gray out) and kg > kr > kb; found coefficients %s in %s" % (coeff, show(ro, maxd=8)),
-              at=lu.span, fn=lu.path, detail=coeff)
+              at=lu.span, fn=lu.path, detail=coeff, status="refuted" if len(coeff) == 3 else "undecided")   # no coefficients: a shape the extraction cannot read (an iterator chain, a loop)
     rep.sample({"rule": "R13.3", "luma_coefficients": coeff})
 
     # GRAY_50 constants
